@@ -61,8 +61,8 @@ def arrays_in(obj, path=""):
     if isinstance(obj, np.ndarray):
         out.append((path, obj))
     elif isinstance(obj, dict):
-        for k, v in obj.items():
-            out += arrays_in(v, f"{path}[{k!r}]")
+        for k in sorted(obj, key=str):  # library dict order follows PYTHONHASHSEED (frozenset of keys)
+            out += arrays_in(obj[k], f"{path}[{k!r}]")
     elif isinstance(obj, (list, tuple)):
         for i, v in enumerate(obj):
             out += arrays_in(v, f"{path}[{i}]")
